@@ -151,3 +151,17 @@ func verifModelContextCause(c context.Context) error {
 	}
 	return c.Err()
 }
+
+func verifSliceLenAny(x any) int
+func verifSliceSwapAny(x any, i, j int)
+
+// sort.SliceStable (and sort.Slice, whose result on ties is unspecified: the stable order is one of the allowed ones) as an
+// insertion sort driven by the caller's less function
+func verifModelSliceStable(x any, less func(i, j int) bool) {
+	n := verifSliceLenAny(x)
+	for i := 1; i < n; i++ {
+		for j := i; j > 0 && less(j, j-1); j-- {
+			verifSliceSwapAny(x, j, j-1)
+		}
+	}
+}
